@@ -70,7 +70,7 @@ reg("C02", H("c02", "c02_false_twin", tier="thorough", expect_fail=True, bounds=
 _RWH = ["parse_tls_record_with_header"]
 reg("C03",
     H("c03", "c03_two_ccs", bounds="two-step, CCS payload <= 4 B symbolic length", funcs=_RWH + ["parse_tls_message_changecipherspec"]),
-    H("c03", "c03_two_alert", bounds="two-step, alert payload <= 5 B symbolic length", funcs=_RWH + ["parse_tls_message_alert"]),
+    H("c03", "c03_two_alert", timeout=600, bounds="two-step, alert payload <= 5 B symbolic length", funcs=_RWH + ["parse_tls_message_alert"]),
     H("c03", "c03_two_appdata", bounds="two-step, application data payload <= 4 B symbolic length", funcs=_RWH + ["parse_tls_message_applicationdata"]),
     H("c03", "c03_two_heartbeat", bounds="two-step, heartbeat payload <= 8 B symbolic length", funcs=_RWH + ["parse_tls_message_heartbeat"]),
     *[H("c03", "c03_two_unknown_%s" % t, bounds="two-step, content type 0x%s, payload <= 3 B" % t, funcs=_RWH) for t in ("00", "13", "19", "ff")],
@@ -357,7 +357,7 @@ reg("C14",
     H("c14", "c14_sct_list_wiring", bounds="list buffer <= 11 B symbolic length, up to 4 entries; single-entry parser stubbed by an opaque length-prefixed marker",
       stubs=["parse_ct_signed_certificate_timestamp"], funcs=["parse_ct_signed_certificate_timestamp_list"], timeout=600),
     H("c14", "c14_sct_list_one_shape", bounds="list of exactly one 47-byte entry (shape concrete, contents and inner length fields symbolic)",
-      funcs=["parse_ct_signed_certificate_timestamp_list"], timeout=600),
+      funcs=["parse_ct_signed_certificate_timestamp_list"], timeout=1200),
     H("c14", "c14_sct_list_two_shape", tier="thorough", bounds="list of exactly two 47-byte entries (shape concrete, contents and inner length fields symbolic)",
       funcs=["parse_ct_signed_certificate_timestamp_list"], timeout=2400, mem=20),
     )
